@@ -1,7 +1,7 @@
 from vlib.flow import Prop
 from vlib import core
 from .common import BASE_TRUST
-from . import gen
+from . import gen, acc2
 import struct, math
 
 
@@ -19,13 +19,22 @@ def half_f32(h):
 class C15(Prop):
     id = 'C15'
     module = 'Cbor.Props.C15'
-    theorems = ['Props.C15.C15_half_value', 'Props.C15.C15_half_roundtrip', 'Props.C15.C15_half_total', 'Props.C15.half_ok',
+    extra_modules = ['Cbor.Props.FloatAccessors']       # theorems over the generated float getters / setters (lean/Cbor/Gen/Accessors2.lean)
+    FLOAT_ACC_THEOREMS = ['leStore_getD', 'leStore_leStore', 'get_set_float2', 'get_set_float4', 'get_set_float8', 'set_set_float2', 'set_set_float4',
+                          'set_set_float8', 'set_pos_zero_neg_zero', 'set_float2_fields', 'set_float4_fields', 'set_float8_fields', 'set_float2_frame',
+                          'set_float4_frame', 'set_float8_frame', 'setters_keep_tags', 'get_float2_val', 'get_float4_val', 'get_float8_val',
+                          'get_float2_ok', 'get_float4_ok', 'get_float8_ok', 'set_float_ok', 'get_float_ok', 'get_float_eq', 'get_float_set',
+                          'norm_mul_two_pow', 'f32ToF64_toNat', 'f32ToF64_exact', 'f32ToF64_inf', 'f32ToF64_nan', 'f32ToF64_not_nan', 'f32ToF64_inj',
+                          'f32ToF64_nan_collision', 'get_float_value']
+    theorems = ['Props.FloatAccessors.' + t for t in FLOAT_ACC_THEOREMS] + ['Props.C15.C15_half_value', 'Props.C15.C15_half_roundtrip', 'Props.C15.C15_half_total', 'Props.C15.half_ok',
                 'Props.C15.C15_single', 'Props.C15.C15_double', 'Props.C15.isNaN32_spec', 'Props.C15.isNaN64_spec',
                 'Lemmas.halfCheck_all', 'Lemmas.half_struct']
     trusted_base = BASE_TRUST + [
         'C15: _cbor_decode_half uses double/ldexp/(float) and is hand-modelled at bit level (Ext.decodeHalfBits); the model is compared with the compiled function on all 65536 inputs on every run',
         'C15: x86-64 SSE passes float/double bit patterns (including NaN payloads) through calls and the item store unchanged; isnan() is the IEEE predicate',
-        'C15: the 65536-entry half table is checked by kernel evaluation (decide +kernel) in 64 shards; no native_decide']
+        'C15: the 65536-entry half table is checked by kernel evaluation (decide +kernel) in 64 shards; no native_decide',
+        'Props.FloatAccessors: float / double are their IEEE-754 bit patterns; *(float*)item->data = the 4 (8) little-endian bytes at data[0..] (alignment / effective type as for the '
+        'integer accessors, C18); (double)f is the hand-written Prelude.f32ToF64 (NaN: quiet bit set, payload kept = x86-64 cvtss2sd), compared with the compiled conversion by the ACC lines of every run']
     rule = ('all 65536 half patterns (decode, re-encode); singles: every exponent x boundary mantissas, strided blocks of 65536 consecutive patterns '
             '(every block = all 2^32 in thorough) by digest on C and generated model, each also through cbor_encode_half (totality under UBSan); '
             'doubles: every exponent x boundary mantissas + random; the same patterns of all three widths through the item path (cbor_load -> item -> dump -> cbor_serialize); non-trivial = not a zero pattern; distinct by (op, pattern, result)')
@@ -57,11 +66,12 @@ class C15(Prop):
             lines += ['ENC double %d 9' % b, 'SD fb%016x' % b]
         for h in range(0, 65536, 1 if tier == 'thorough' else 17):
             lines.append('SD f9%04x' % h)
+        lines += acc2.float_lines(tier, rng)          # generated float getters / setters vs the compiled ones (ACC)
         return lines
 
     def nontrivial(self, line, out):
         w = line.split()
-        return w[0] == 'F32ALL' or (w[0] == 'HALFD' and int(w[1]) & 0x7fff != 0) or (w[0] in ('ENC', 'SD') and not w[-2 if w[0] == 'ENC' else -1].strip('0') == '')
+        return w[0] in ('F32ALL', 'ACC') or (w[0] == 'HALFD' and int(w[1]) & 0x7fff != 0) or (w[0] in ('ENC', 'SD') and not w[-2 if w[0] == 'ENC' else -1].strip('0') == '')
 
     def oracle(self, tier, ctx):
         rng = core.Rng('C15-oracle')
@@ -198,6 +208,9 @@ class C15(Prop):
             if o != exp:
                 fails.append({'input': l, 'expected': exp + '  (width, stored bits, bits of the exactly converted double, bytes)', 'observed': o,
                               'why': 'a float item does not hold / return / serialize the value it was given (width-specific getter, cbor_float_get_float, cbor_serialize)'})
+        # the float getters / setters of the item API called directly on a laid-out item (ACC), against an expectation computed here
+        fails += acc2.oracle(ctx, acc2.float_lines(tier, core.Rng('C15-acc')), acc2.float_expect,
+                             'a float getter / setter does not return / store exactly the bit pattern (or the exactly widened double), or its assertions differ')
         # blocks of 65536 consecutive singles: C vs generated model digests (also runs cbor_encode_half on each under UBSan)
         step = 1 if tier == 'thorough' else 61
         his = sorted(set(range(0, 65536, step)) | {0, 0x0080, 0x3300, 0x3380, 0x3880, 0x477f, 0x4780, 0x7f80, 0x7fc0, 0x8000, 0xb300, 0xff80, 0xffff})
